@@ -136,6 +136,9 @@ def check_decoder(res, ctx, rng, name):
         if ('S', j) in spec:
             continue
         s2[j] = domain.distinct_words(rng, 1)[0]
+        if name in ('BSC_setsockopt', 'BSC_getsockopt') and s2[1] == domain.SOL_SOCKET_DARWIN \
+                and s2[2] not in domain.SOCKOPT_NAMES:
+            s2[2] = rng.choice(domain.SOCKOPT_NAMES)   # SOL_SOCKET => the option must be a declared one (domain)
         junk = H.unrelated(rng, rng.randrange(0, 3))
         for end in ([0] + ret, [22] + ret):
             try:
